@@ -447,6 +447,13 @@ func (c *Ctx) Un(op Op, a *Term) *Term {
 	s := a.Sort
 	if op == OpFIsNaN {
 		s = Bool
+		// an integer converted to floating point is never NaN
+		if a.Op == OpSIToFP || a.Op == OpUIToFP {
+			return c.False
+		}
+		if a.Op == OpFPToFP && (a.Args[0].Op == OpSIToFP || a.Args[0].Op == OpUIToFP) {
+			return c.False
+		}
 	}
 	return c.mk(op, s, a)
 }
